@@ -12,6 +12,7 @@ import (
 
 func main() {
 	r := vlib.Start("C17", "exploration")
+	r.ScaleQuick(3) // quick tier: 3x the case counts written at the sections (still well under a minute)
 	r.Rule("seeded inputs with known conditioning: dense 2x2/3x3/4x4 matrices U*diag(sigma)*V^T (sigma ratios <= 0.9, kappa <= 100 for SVD, <= 1e4 for inverses) plus exactly representable special matrices; Schur forms Q*T*Q^T with chosen real/complex eigenvalues (gaps >= 0.3); polynomials of degree 1-8 multiplied out from chosen roots (real roots >= 0.1 apart in [-5,5], complex pairs with |Im| >= 0.1, leading zero coefficients, scales 1e-3..1e3), decided only when eps*cond(root) <= 1e-12 (normwise); strictly diagonally dominant sparse SPD systems of 1..400 unknowns over random/banded/grid/multi-component/star/dense graphs with random relabelling and insertion order; diagonally dominant non-symmetric systems for BiCGSTAB; unimodal and rough logged objectives for the optimisers; angles up to +-1e6 and at multiples of pi; Bezier control polygons of 2..18 points, x-monotone polygons for InverseX, polylines of 1..8 segments; non-trivial = every decided case (each is a distinct random instance); distinct by kernel + leading input bits")
 	r.Assume("the reference arithmetic (Jacobi eigen-solver, Gaussian elimination, de Casteljau, Faddeev-LeVerrier, Horner) is correct; tolerances are multiples of eps*condition stated next to each check")
 	r.Assume("LineSearch / GridSearch with Recursions > 0 are documented to re-sample only around the previous best point, so 'at least as good as every sample' is demanded of the final level (and of all samples when Recursions = 0, and always for GSS and RecursiveLineSearch)")
